@@ -301,6 +301,13 @@ func c03CtxAgreement(p *Prog, r *Report, rule string) {
 							good = true
 						}
 					}
+					// ... or a field of a per-call value that is built from DB(ctx) with the caller's context and used
+					// at once: r.records(ctx).drop(id) with records(ctx) = parentRecords{r.p.DB(ctx)}
+					if fsel, isSel := ast.Unparen(sel.X).(*ast.SelectorExpr); isSel && !good {
+						if fv, isF := finfo.Uses[fsel.Sel].(*types.Var); isF && fv.IsField() {
+							good = p.perCallQueryField(fi.Pkg, fv)
+						}
+					}
 				}
 				r.Check(good, rule, k+"#via-DB(ctx)", p.pos(c), "query manager obtained from DB(ctx)", "the repository does not obtain the query manager from DB(ctx) with its own context: the write escapes the commit's Badger transaction")
 				return true
@@ -1031,4 +1038,144 @@ func (p *Prog) drainRoot(fi *FuncInfo) *FuncInfo {
 		frontier = next
 	}
 	return fi
+}
+
+// perCallQueryField: the field holds a query manager obtained per call: every value of the field's struct type is
+// built (in the package) by a function that takes a context and sets the field from DB(that context); every call of
+// such a builder hands on the calling function's own context parameter, and its result is used at once (as the
+// receiver of a call, or kept in a local) - never stored in a field or a package-level variable.
+func (p *Prog) perCallQueryField(pkg *packages.Package, fv *types.Var) bool {
+	info := pkg.TypesInfo
+	// the struct type that declares the field
+	var owner *types.Named
+	for _, n := range pkg.Types.Scope().Names() {
+		if tn, ok := pkg.Types.Scope().Lookup(n).(*types.TypeName); ok {
+			if st, ok := tn.Type().Underlying().(*types.Struct); ok {
+				for i := 0; i < st.NumFields(); i++ {
+					if st.Field(i) == fv {
+						owner, _ = tn.Type().(*types.Named)
+					}
+				}
+			}
+		}
+	}
+	if owner == nil {
+		return false
+	}
+	builders := map[*FuncInfo]bool{}
+	okAll, built := true, 0
+	for _, k := range sortedFuncKeys(p) {
+		fi := p.Funcs[k]
+		if fi.Pkg != pkg || fi.Decl == nil || fi.Decl.Body == nil {
+			continue
+		}
+		var ctxParam types.Object
+		for _, o := range paramObjs(fi) {
+			if o != nil && strings.HasSuffix(o.Type().String(), "context.Context") {
+				ctxParam = o
+			}
+		}
+		ast.Inspect(fi.Decl.Body, func(x ast.Node) bool {
+			cl, ok := x.(*ast.CompositeLit)
+			if !ok {
+				return true
+			}
+			tv, ok := info.Types[cl]
+			if !ok || !types.Identical(tv.Type, owner) {
+				return true
+			}
+			built++
+			// the value given to the field
+			var val ast.Expr
+			st := owner.Underlying().(*types.Struct)
+			for i, el := range cl.Elts {
+				if kv, isKV := el.(*ast.KeyValueExpr); isKV {
+					if id, isId := kv.Key.(*ast.Ident); isId && info.Uses[id] == fv {
+						val = kv.Value
+					}
+				} else if i < st.NumFields() && st.Field(i) == fv {
+					val = el
+				}
+			}
+			dc, isCall := ast.Unparen(val).(*ast.CallExpr)
+			if val == nil || !isCall || !p.callIs(pkg, dc, kMgrDB, "(internal/db/badger.Provider).DB") || len(dc.Args) != 1 || ctxParam == nil || objOf(info, dc.Args[0]) != ctxParam {
+				okAll = false
+				return true
+			}
+			builders[fi] = true
+			return true
+		})
+		// the field assigned outside a literal: not a per-call value
+		ast.Inspect(fi.Decl.Body, func(x ast.Node) bool {
+			if as, ok := x.(*ast.AssignStmt); ok {
+				for _, l := range as.Lhs {
+					if sel, ok := l.(*ast.SelectorExpr); ok && info.Uses[sel.Sel] == fv {
+						okAll = false
+					}
+				}
+			}
+			return true
+		})
+	}
+	if !okAll || built == 0 {
+		return false
+	}
+	// every call of a builder: own context, used at once
+	for _, k := range sortedFuncKeys(p) {
+		fi := p.Funcs[k]
+		if fi.Pkg != pkg || fi.Decl == nil || fi.Decl.Body == nil {
+			continue
+		}
+		var ctxParam types.Object
+		for _, o := range paramObjs(fi) {
+			if o != nil && strings.HasSuffix(o.Type().String(), "context.Context") {
+				ctxParam = o
+			}
+		}
+		var stack []ast.Node
+		ast.Inspect(fi.Decl.Body, func(x ast.Node) bool {
+			if x == nil {
+				stack = stack[:len(stack)-1]
+				return true
+			}
+			stack = append(stack, x)
+			c, ok := x.(*ast.CallExpr)
+			if !ok {
+				return true
+			}
+			callee := p.staticCallee(pkg, c)
+			if callee == nil || !builders[callee] {
+				return true
+			}
+			ownCtx := false
+			for _, a := range c.Args {
+				if ctxParam != nil && objOf(info, a) == ctxParam {
+					ownCtx = true
+				}
+			}
+			if !ownCtx {
+				okAll = false
+			}
+			// the parent: a selector (method call on the result) or a define of a local
+			if len(stack) >= 2 {
+				switch par := stack[len(stack)-2].(type) {
+				case *ast.SelectorExpr:
+				case *ast.AssignStmt:
+					for _, l := range par.Lhs {
+						if _, isId := l.(*ast.Ident); !isId {
+							okAll = false
+						}
+					}
+				case *ast.ReturnStmt:
+					if !builders[fi] {
+						okAll = false
+					}
+				default:
+					okAll = false
+				}
+			}
+			return true
+		})
+	}
+	return okAll
 }
